@@ -1,7 +1,8 @@
 """
 Verification hooks (loaded only when the environment variable DATA_ALGEBRA_VERIF is "1").
 
-Records one event per operator node evaluated by the Pandas executor: node kind, declared columns, the shape of
+Records one event per operator node evaluated by the Pandas executor (and, with backend = "polars", by the Polars
+executor): node kind, declared columns, the shape of
 the inputs and of the result, and the scalars a step-shape law needs (group count for project, limit for
 order_rows, join type).  Events are appended as ND-JSON to the path in DATA_ALGEBRA_VERIF_TRACE (suffix: process
 id); nothing is recorded when that variable is unset.  The library is sequential: events carry a per-process
@@ -87,6 +88,83 @@ def eval_value_source(model, s, data_map):
                 elif s.node_name == "TableDescription":
                     ev["alias"] = any(res is v for v in data_map.values())
                 _state["children"].append(res)
+            fh.write(json.dumps(ev) + "\n")
+            if depth == 0:
+                fh.flush()
+                del _state["children"][:]
+        except Exception:  # noqa  - a hook must never change what the library does
+            pass
+
+
+def _polars_shape(res):
+    """columns and row count of a Polars (lazy) frame; rows = -1 when the intermediate cannot be collected on its own"""
+    import polars as pl
+
+    if isinstance(res, pl.LazyFrame):
+        cols = [str(c) for c in res.collect_schema().names()]
+        try:
+            res = res.collect()
+        except Exception:  # noqa
+            return cols, -1, None
+        return cols, int(res.shape[0]), res
+    return [str(c) for c in res.columns], int(res.shape[0]), res
+
+
+def polars_compose(model, s, data_map):
+    """Dispatch node s as PolarsModel._compose_polars_ops does, recording the step (same event format as
+    eval_value_source, with backend = "polars"; the children list holds collected frames or None)."""
+    fh = _out()
+    if fh is None:
+        return model._method_dispatch_table[s.node_name](op=s, data_map=data_map)
+    depth = _state["depth"]
+    _state["depth"] = depth + 1
+    mark = len(_state["children"])
+    res = None
+    ok = False
+    try:
+        res = model._method_dispatch_table[s.node_name](op=s, data_map=data_map)
+        ok = True
+        return res
+    finally:
+        _state["depth"] = depth
+        kids = _state["children"][mark:]
+        del _state["children"][mark:]
+        try:
+            cols, rows, frame = _polars_shape(res) if ok else ([], 0, None)
+            ev = {
+                "backend": "polars",
+                "seq": _state["seq"],
+                "depth": depth,
+                "kind": s.node_name,
+                "ok": ok,
+                "declared": [str(c) for c in s.column_names],
+                "in_rows": [k[0] for k in kids],
+                "out_cols": cols,
+                "out_rows": rows,
+                "group_by": [],
+                "n_groups": 0,
+                "n_groups_nonnull": 0,
+                "limit": -1,
+                "jointype": "",
+                "alias": False,
+            }
+            _state["seq"] += 1
+            if ok:
+                if s.node_name == "ProjectNode" and len(kids) == 1:
+                    ev["group_by"] = [str(c) for c in s.group_by]
+                    if len(s.group_by) == 0:
+                        ev["n_groups"], ev["n_groups_nonnull"] = 1, 1
+                    elif kids[0][1] is not None:
+                        sub = kids[0][1].select(list(s.group_by))
+                        ev["n_groups"] = int(sub.unique().shape[0])
+                        ev["n_groups_nonnull"] = int(sub.drop_nulls().unique().shape[0])
+                    else:
+                        ev["in_rows"] = [-1]
+                elif s.node_name == "OrderRowsNode":
+                    ev["limit"] = -1 if s.limit is None else int(s.limit)
+                elif s.node_name == "NaturalJoinNode":
+                    ev["jointype"] = str(s.jointype)
+                _state["children"].append((rows, frame))
             fh.write(json.dumps(ev) + "\n")
             if depth == 0:
                 fh.flush()
